@@ -75,6 +75,15 @@ def u_malformed(ctx):
         (C.Converter, dict(vo=5.0, eff={"vi": [3.3], "io": [0.1, 0.1], "eff": [[0.5, 0.6]]})),               # not strictly increasing
         (C.Converter, dict(vo=5.0, eff={"vi": [3.3], "eff": [[0.5, 0.6]]})),                                  # missing axis
         (C.Converter, dict(vo=5.0, eff={"vi": [3.3, 5.0], "io": [0.1, 0.5], "eff": [[0.5, 0.6]]})),           # row count mismatch
+        (C.Converter, dict(vo=5.0, eff={"vi": 3.3, "io": [0.1, 0.5], "eff": [[0.5, 0.6]]})),                  # scalar vi axis (IndexError before 5e33b1d)
+        (C.Converter, dict(vo=5.0, eff={"vi": [3.3], "io": 0.1, "eff": [[0.5]]})),                            # scalar io axis
+        (C.Converter, dict(vo=5.0, eff={"vi": [3.3], "io": [0.1, 0.5], "eff": [[[0.5], [0.6]]]})),            # value block nested too deep (accepted before 5e33b1d)
+        (C.Converter, dict(vo=5.0, eff={"vi": [3.3], "io": [0.1, 0.5], "eff": [0.5, 0.6]})),                  # value block 1-D
+        (C.Converter, dict(vo=5.0, eff={"vi": [3.3, 5.0], "io": [0.1, 0.5, 1.0], "eff": [[0.5, 0.6], [0.7, 0.8], [0.9, 0.95]]})),  # transposed (same element count)
+        (C.Converter, dict(vo=5.0, eff={"vi": [3.3, 5.0], "io": [0.1, 0.5], "eff": [[0.5, 0.6, 0.7, 0.8]]})),   # 1x4 for a 2x2 grid
+        (C.VLoss, dict(vdrop={"vi": [3.3, 5.0], "io": [0.1, 0.5, 1.0], "vdrop": [[0.5, 0.6], [0.7, 0.8], [0.9, 0.95]]})),
+        (C.LinReg, dict(vo=3.3, ig={"vi": [5.0, 6.0], "io": [0.0, 0.1, 0.2], "ig": [[1e-3, 2e-3], [1e-3, 2e-3], [1e-3, 2e-3]]})),
+        (C.PSwitch, dict(ig={"vi": [[5.0]], "io": [0.0, 0.1], "ig": [[1e-3, 2e-3]]})),                          # vi axis 2-D
         (C.VLoss, dict(vdrop={"vi": [3.3], "io": [0.1, 0.5]})),                                               # missing z
         (C.LinReg, dict(vo=3.3, ig={"vi": [5.0], "io": [0.0, 0.1], "ig": [[1e-3, -1e-3]]})),                  # negative tabulated ig
         (C.PSwitch, dict(ig={"vi": [5.0], "io": [0.0, 0.1], "ig": [[-1e-3, 1e-3]]})),
@@ -100,6 +109,8 @@ def u_malformed(ctx):
             ctx.fail("malformed-argument-rejected", key="malformed/%d" % n, info={"cls": cls.__name__, "args": repr(kw)[:200]})
         except ValueError:
             ctx.check("malformed-argument-rejected", TRUE)
+        except Exception as e:  # the property names ValueError; any other exception type is a (different) failure to reject properly
+            ctx.fail("malformed-argument-rejected", key="malformed/%d/%s" % (n, type(e).__name__), info={"cls": cls.__name__, "args": repr(kw)[:200], "raised": repr(e)[:200]})
     ctx.cover("panel")
 
 
@@ -112,7 +123,7 @@ META = {
     "functions": ["components.*.__init__ (11 kinds)", "components._check_interp", "components._check_limits",
                   "components._Interp0d/_Interp1d/_Interp2d", "components.*._solv_outp_volt (series kinds)"],
     "bounds": "all real argument values; tables 1-D (2 points) and 2-D (2x2 concrete axes); PMux 2 inputs; malformed (non-numeric, wrong shape) "
-              "arguments: finite concrete panel of 23 calls",
+              "arguments: finite concrete panel of 32 calls",
     "outside": "binary64; tables with vi rows not increasing; non-finite floats",
     "assumptions": ["floats as reals", "table axes increasing (non-monotonic io covered by the concrete panel)"],
 }
